@@ -101,4 +101,16 @@ theorem runLog_finOk (log : List Ev) : ∀ (p p' : PSt), FinOk p → runLog pste
     | none => simp [hs] at h
     | some p1 => simp only [hs] at h; exact ih p1 p' (finOk_step p p1 e hf hs) h
 
+set_option maxHeartbeats 1600000 in
+/-- a state in which every thread is finished or parked in an untimed wait without a wake-up token
+    accepts no event: it ends a maximal run -/
+theorem pstuck_of_rest (p : PSt)
+    (h : ∀ t, t < p.s.n → p.s.pc t = .fin ∨ (p.s.pc t = .susp false ∧ p.s.tok t = 0)) : PStuck p := by
+  intro e
+  cases e <;> simp only [pstep, step] <;> (repeat' split) <;>
+    first
+    | rfl
+    | (simp_all; done)
+    | grind
+
 end PikaVerif.CV
